@@ -88,6 +88,10 @@ func (pass *InlineObjectsWithTypes) processRef(_ *Visitor, _ *ast.Schema, def as
 	}
 
 	typeDef := pass.objectsToInline.Get(def.Ref.String()).DeepCopy()
+	if def.Nullable {
+		// the reference being inlined was nullable (optional field, ...)
+		typeDef.Nullable = true
+	}
 	typeDef.AddToPassesTrail(fmt.Sprintf("InlineObjectsWithTypes[original=%s]", def.Ref.String()))
 
 	return typeDef, nil
